@@ -17,6 +17,12 @@ Module J := Model.Json.
 Module S := Spec.JsonMap.
 Module L := Proofs.C05Leaf.
 
+Ltac eval_tables :=
+  repeat match goal with
+         | |- context [tmem ?t ?l] => let v := eval vm_compute in (tmem t l) in change (tmem t l) with v
+         | |- context [ptype_eqb ?a ?b] => let v := eval vm_compute in (ptype_eqb a b) in change (ptype_eqb a b) with v
+         end; cbv iota.
+
 (* ---- the vocabulary bridge ---- *)
 Definition skind_of (t : ptype) : option S.skind :=
   match t with
@@ -132,17 +138,17 @@ Proof.
   unfold J.scalar_to_json. rewrite (int64_table_same t k K).
   destruct t; cbn [skind_of] in K; inversion K; subst k; clear K;
     destruct v; try discriminate R; cbn [S.is64];
-    try (eexists; split; [reflexivity|]; vm_compute ptype_eqb; vm_compute tmem; cbv iota;
+    try (eexists; split; [reflexivity|]; eval_tables;
          cbn [J.raw_json conv S.spec_scalar S.is64]; rewrite ?b64encode_same; reflexivity).
   - (* float *)
-    eexists. split; [reflexivity|]. vm_compute ptype_eqb. vm_compute tmem. cbv iota.
+    eexists. split; [reflexivity|]. eval_tables.
     unfold J.dump_float. rewrite EI, EN, EQ. cbn [S.spec_scalar].
     destruct (f64_is_nan bits) eqn:N.
     + destruct (bits =? f64_pos_inf) eqn:P; [apply Z.eqb_eq in P; subst; discriminate N|].
       destruct (bits =? f64_neg_inf) eqn:Q; [apply Z.eqb_eq in Q; subst; discriminate N|]. reflexivity.
     + destruct (bits =? f64_pos_inf), (bits =? f64_neg_inf); reflexivity.
   - (* double *)
-    eexists. split; [reflexivity|]. vm_compute ptype_eqb. vm_compute tmem. cbv iota.
+    eexists. split; [reflexivity|]. eval_tables.
     unfold J.dump_float. rewrite EI, EN, EQ. cbn [S.spec_scalar].
     destruct (f64_is_nan bits) eqn:N.
     + destruct (bits =? f64_pos_inf) eqn:P; [apply Z.eqb_eq in P; subst; discriminate N|].
@@ -184,12 +190,21 @@ Qed.
 (* ====================================================================================== *)
 (* ACCEPT: the model's reader takes the canonical form of every in-range scalar            *)
 (* ====================================================================================== *)
-Lemma unconv_conv_scalar sc t p v j : conv (J.scalar_to_json sc t p v) = Some j ->
-  match J.scalar_to_json sc t p v with J.JList _ | J.JObj _ | J.JPy _ => False | _ => True end ->
-  unconv j = J.scalar_to_json sc t p v.
+Definition leaf (j : S.json) : Prop := match j with S.JArr _ | S.JObj _ => False | _ => True end.
+Lemma conv_leaf x j : conv x = Some j -> leaf j -> unconv j = x.
 Proof.
-  destruct (J.scalar_to_json sc t p v); cbn [conv]; intros E H; try contradiction; inversion E; reflexivity.
+  destruct x; cbn [conv]; intros E H; try (inversion E; subst; reflexivity);
+    try (destruct (S.all_some _); cbn [option_map] in E; inversion E; subst; contradiction H).
 Qed.
+Definition opt_leaf (o : option S.json) : Prop := match o with Some j => leaf j | None => True end.
+Lemma spec_scalar_opt_leaf k a : opt_leaf (S.spec_scalar k a).
+Proof.
+  destruct k, a; cbn [S.spec_scalar S.is64 opt_leaf leaf]; try exact I;
+    destruct (f64_is_nan bits); try exact I; destruct (bits =? f64_pos_inf); try exact I;
+    destruct (bits =? f64_neg_inf); exact I.
+Qed.
+Lemma spec_scalar_leaf k a j : S.spec_scalar k a = Some j -> leaf j.
+Proof. intros E. pose proof (spec_scalar_opt_leaf k a) as H. rewrite E in H. exact H. Qed.
 
 Theorem model_scalar_accepts_canonical sc t k p v a j :
   skind_of t = Some k -> pyty_fits (length (classes sc)) (length (enums sc)) t p = true ->
@@ -202,11 +217,7 @@ Proof.
   rewrite Sj in C.
   assert (Ts : tmem t scalar_ptypes = true) by (destruct t; try discriminate K; reflexivity).
   pose proof (C04ScalarP.scalar_roundtrip sc false t p v Ts P R N) as RT. unfold C04ScalarP.tr in RT.
-  rewrite <- RT. f_equal. apply (unconv_conv_scalar sc t p v j C).
-  unfold J.scalar_to_json.
-  destruct t; try discriminate K; destruct v; try discriminate R; vm_compute tmem; vm_compute ptype_eqb; cbv iota;
-    cbn [J.raw_json]; try exact I; unfold J.dump_float;
-    destruct (_ =? f64_pos_inf); try exact I; destruct (_ =? f64_neg_inf); try exact I; destruct (f64_is_nan _); exact I.
+  rewrite <- RT. f_equal. apply (conv_leaf _ _ C), (spec_scalar_leaf k a), Sj.
 Qed.
 
 (* ====================================================================================== *)
